@@ -18,16 +18,30 @@ def asSample : SExp → Option (Canon × Canon × Canon)
   | .list [x, g, h] => do pure (← asCanon x, ← asCanon g, ← asCanon h)
   | _ => none
 
-/-- the property on one (implementation) sample: balanced, mapped, superposition; for Diels-Alder
-    samples also the reaction-centre shape -/
+/-- the property on one (implementation) sample: balanced, mapped; the two halves DIRECTLY against the
+    model's split of the pattern's labels (`halvesB`: exactly the same bonded pairs with the same scalar,
+    non-zero labels — the totalised `orderOf` / `getD` of the `get_its` models below cannot hide a tuple label
+    or a missing label left on a half); superposition (small and general `get_its`) as additional clauses;
+    for Diels-Alder samples also the reaction-centre shape -/
 def sampleOk (da : Bool) (x g h : Graph) : Bool :=
-  balancedMappedB x g h && superpositionB x (getIts g h) && superGeneralB x g h && (!da || daCentreOk x)
+  balancedMappedB x g h && halvesB x g h && superpositionB x (getIts g h) && superGeneralB x g h &&
+  (!da || daCentreOk x)
+
+/-- the decidable hypotheses of `C15.superposition` / `balanced_mapped_of` / `halvesB_reaction` on a sample -/
+def hypB (x : Graph) : Bool :=
+  wf x && !x.multi && x.edges.all (fun e => match e.2.2.2 with
+    | .s o => o != 0 | .p a b => !(a == 0 && b == 0) | .nil => false) &&
+  closedB x && nodupB x.nodeIds && x.nodes.all (fun p => p.2.aam == some (p.1 + 1))
+
+/-- does the pattern carry a forming bond `(0,k)` / a breaking bond `(k,0)`? (input distribution) -/
+def hasForming (x : Graph) : Bool := x.edges.any fun e => match e.2.2.2 with | .p a b => a == 0 && b != 0 | _ => false
+def hasBreaking (x : Graph) : Bool := x.edges.any fun e => match e.2.2.2 with | .p a b => a != 0 && b == 0 | _ => false
 
 /-- flags: balanced+mapped; superposition with the small `getIts` of Model/C15.lean AND with the general
     `C09.getIts` (the model validated against `fgutils.its.get_its`) through the adapter of
     Model/C15General.lean; Diels-Alder centre -/
 def sampleFlags (da : Bool) (x g h : Graph) : SExp :=
-  .list [ofBool (balancedMappedB x g h), ofBool (superpositionB x (getIts g h) && superGeneralB x g h),
+  .list [ofBool (balancedMappedB x g h && halvesB x g h), ofBool (superpositionB x (getIts g h) && superGeneralB x g h),
          ofBool (!da || daCentreOk x)]
 
 def ofSample (x : Graph) : SExp :=
@@ -50,13 +64,11 @@ def handle : List SExp → Option SExp
             pure (ofBool (sampleOk da x (graphOfCanon g) (graphOfCanon h)))
         | _ => pure none'
       -- the decidable hypotheses of `C15.superposition` / `balanced_mapped_of` on this sample
-      let hyp := wf x && !x.multi && x.edges.all (fun e => match e.2.2.2 with
-        | .s o => o != 0 | .p a b => !(a == 0 && b == 0) | .nil => false) &&
-        closedB x && nodupB x.nodeIds && x.nodes.all (fun p => p.2.aam == some (p.1 + 1))
+      let hyp := hypB x
       -- `generalOk`: hypotheses of `C15.superposition_general`; `resuperGeneralB`: the general
       -- `get_its(*split_its(x))` (C10.resuper through the adapter) is the lifted pattern
       pure (.list [.atom "ok", .list [canonGraph gh.1, canonGraph gh.2], ofBool (sampleOk da x gh.1 gh.2), specImpl, ofBool hyp,
-                   ofBool (generalOk x), ofBool (resuperGeneralB x)])
+                   ofBool (generalOk x), ofBool (resuperGeneralB x), ofBool (hasForming x), ofBool (hasBreaking x)])
   -- individual samples of a configuration along given choice paths
   | .atom "paths" :: da :: cfg :: cores :: aam :: paths :: rest => do
       let da ← asBool da
@@ -79,7 +91,66 @@ def handle : List SExp → Option SExp
             pure (ofBool (ss.length == paths.length && ss.all fun s =>
               sampleOk da (graphOfCanon s.1) (graphOfCanon s.2.1) (graphOfCanon s.2.2)))
         | _ => pure none'
-      pure (.list [.atom "ok", model, ofBool specModel, specImpl])
+      -- how many of the model's samples satisfy the theorems' decidable hypotheses (`hypB`, `generalOk`), on how
+      -- many of those the general `get_its(*split_its(x))` is the lifted pattern, forming / breaking bonds present
+      let oks := xs.filterMap fun r => match r with | .ok x => some x | .error _ => none
+      let cnt := fun (f : Graph → Bool) => ofNat (oks.filter f).length
+      pure (.list [.atom "ok", model, ofBool specModel, specImpl, cnt hypB, cnt generalOk,
+                   cnt (fun x => generalOk x && resuperGeneralB x), cnt hasForming, cnt hasBreaking])
+  -- every reaction of a (generated) reaction-proxy configuration, tied to the MODEL's expansion of the configuration:
+  -- the implementation's samples `(X, G, H)` (canonical forms, sorted by rendering) against the model's
+  -- `generate` + `split_its`; specification on the implementation's list: every sample passes `sampleOk` AND the
+  -- multiset of its expanded patterns `X` is the multiset of patterns the model expands from the configuration
+  -- ("the ITS pattern the proxy expanded" is an expansion of the configuration: ids 0..n-1, nothing lost or merged)
+  | .atom "reactions" :: cfg :: cores :: rest => do
+      let cfg ← asConfig cfg
+      let cores ← asList asGraph cores
+      match generate cfg fuelMax true cores with
+      | .error e =>
+          let specImpl := match rest with
+            | [.list [.atom "raised", .atom k]] => ofBool (toString (ofErr e) == toString (SExp.list [.atom "raised", .atom k]))
+            | [_] => ofBool false
+            | _ => none'
+          pure (.list [.atom "ok", ofErr e, ofBool true, specImpl, ofNat 0])
+      | .ok xs =>
+          let model := sortByRender (xs.map ofSample)
+          let specModel := xs.all fun x => let gh := reaction x; sampleOk false x gh.1 gh.2
+          let renderLe : String → String → Bool := fun a b => decide (a ≤ b)
+          let specImpl ← match rest with
+            | [.list [.atom "raised", _]] => pure (ofBool false)
+            | [.list impl] => do
+                let ss ← impl.mapM asSample
+                let implX := (impl.map fun s => match s with
+                  | .list (x :: _) => toString x
+                  | _ => "").mergeSort renderLe
+                let modelX := (xs.map fun x => toString (canonGraph x)).mergeSort renderLe
+                pure (ofBool (implX == modelX && ss.all fun s =>
+                  sampleOk false (graphOfCanon s.1) (graphOfCanon s.2.1) (graphOfCanon s.2.2)))
+            | _ => pure none'
+          pure (.list [.atom "ok", .list model, ofBool specModel, specImpl, ofNat xs.length])
+  -- per-core sample counts of a shipped collection: the count formula (`C14.numExp`, proved equal to the number of
+  -- samples: `C14.total`) per core graph, for the cores the harness REALLY iterated (`iterated`); the
+  -- implementation's counts must equal them and, when every core was iterated, sum up to the documented number
+  | .atom "core_counts" :: .atom which :: cfg :: cores :: iterated :: rest => do
+      let cfg ← asConfig cfg
+      let cores ← asList asGraph cores
+      let iterated ← asList asBool iterated
+      let documented : Option Nat := match which with
+        | "da_pos" => some 10470 | "da_neg" => some 12875 | _ => none
+      let formula := cores.map (numExp cfg)
+      let model : List (Option Nat) := (formula.zip iterated).map fun p => if p.2 then some p.1 else none
+      let total := formula.foldl (· + ·) 0
+      let specModel := iterated.length == cores.length && (match documented with | some d => total == d | none => true)
+      let specImpl ← match rest with
+        | [.list [.atom "raised", _]] => pure (ofBool false)
+        | [impl] => do
+            let out ← asList (asOpt asNat) impl
+            let sum := out.foldl (fun acc o => acc + o.getD 0) 0
+            pure (ofBool (out == model &&
+              (!(iterated.all id) || match documented with | some d => sum == d | none => true)))
+        | _ => pure none'
+      pure (.list [.atom "ok", .list (model.map fun o => match o with | some n => ofNat n | none => none'),
+                   ofBool specModel, specImpl, ofNat total, .list (formula.map ofNat)])
   -- whole enumeration: fingerprints of (X, g, h) in order + model-side flags
   | .atom "enum_fp" :: da :: cfg :: cores :: aam :: _ => do
       let da ← asBool da
